@@ -50,6 +50,19 @@ MUTANTS = [
     ('m25', 'C10', 'break', 'skoolkit/trace.py', "next_int = ((tstates + frame_duration - int_active) // frame_duration) * frame_duration", "next_int = ((tstates + frame_duration) // frame_duration) * frame_duration", None),
     ('m26', 'C13', 'break', 'skoolkit/loadtracer.py', "                    registers[25] += 16 * a - 5", "                    registers[25] += 16 * a - 4", None),
     ('m27', 'C06', 'break', 'c/csimulator.c', "    INC_R(1);\n    INC_T(11);\n    INC_PC(2);\n}\n\n/* OUT (C),r/0 */", "    INC_R(1);\n    INC_T(12);\n    INC_PC(2);\n}\n\n/* OUT (C),r/0 */", 'opcodes:D3'),
+    ('m28', 'C13', 'break', 'skoolkit/loadsample.py', "        58,   # 58 T-states per loop iteration\n        9,    # R register increment per loop iteration\n        C,    # EAR bit register\n        0x20, # EAR mask\n        0     # Zero flag is reset upon edge detection by AND $20\n    ),\n\n    'antirom'",
+     "        58,   # 58 T-states per loop iteration\n        8,    # R register increment per loop iteration\n        C,    # EAR bit register\n        0x20, # EAR mask\n        0     # Zero flag is reset upon edge detection by AND $20\n    ),\n\n    'antirom'", None),
+    ('m29', 'C13', 'break', 'skoolkit/loadtracer.py', "acc.loop_time + 1, (counter - 1) % 256)", "acc.loop_time + 1, counter - 1)", None),
+    ('m30', 'C12', 'break', 'skoolkit/bin2tap.py', "    data.append(55)                         # SCF", "    data.append(63)                         # SCF", None),
+    ('m31', 'C12', 'break', 'skoolkit/loadtracer.py', "                if addr > 0x3FFF:\n                    memory[addr] = block[i]", "                if addr >= 0x3FFF:\n                    memory[addr] = block[i]", None),
+    ('m32', 'C14', 'break', 'skoolkit/snactl.py', "                ctls[t_start] = 't'\n                if t_end < end:\n                    ctls[t_end] = 'b'\n        elif", "                ctls[t_start] = 't'\n                if t_end <= end:\n                    ctls[t_end] = 'b'\n        elif", None),
+    ('m33', 'C14', 'break', 'skoolkit/snactl.py', "        if code_blocks and address <= sum(code_blocks[-1]):\n            if address == sum(code_blocks[-1]):\n                code_blocks[-1][1] += size", "        if code_blocks and address == sum(code_blocks[-1]):\n            code_blocks[-1][1] += size", None),
+    ('m34', 'C09', 'break', 'skoolkit/snapshot.py', "                bank[a % 0x4000] = poke_f(bank[a % 0x4000])", "                bank[a % 0x4000] = poke_f(snapshot[a])", None),
+    ('m35', 'C10', 'break', 'skoolkit/snapshot.py', "tstates = get_int_param(val) % FRAME_DURATIONS[self.header[6] > 1]", "tstates = get_int_param(val) % FRAME_DURATIONS[self.header[6] > 2]", None),
+    ('m36', 'C11', 'break', 'skoolkit/tape.py', "pulses = ((3223 + 4840 * (first_byte == 0), 2168), (1, 667), (1, 735))", "pulses = ((3223 + 4840 * (first_byte < 128), 2168), (1, 667), (1, 735))", None),
+    ('m37', 'C13', 'break', 'skoolkit/loadtracer.py', "while index < max_index and edges[index + 1] < tstates:", "while index < max_index and edges[index + 1] <= tstates:", None),
+    ('m38', 'C12', 'break', 'skoolkit/bin2tap.py', "    if tape_file.lower().endswith('.pzx'):", "    if tape_file.endswith('.pzx'):", None),
+    ('m39', 'C01', 'break', 'skoolkit/disassembler.py', "                if value & 127 in (34, 92):\n                    return r'\"\\{}\"'.format(chr(value & 127)) + suffix", "                if value in (34, 92):\n                    return r'\"\\{}\"'.format(chr(value)) + suffix", None),
     # harmless edits: must not raise an alarm
     ('h01', 'C05', 'harmless', 'skoolkit/simulator.py',
      "            pcn = registers[24] + 1\n            registers[:2] = af[registers[0]][memory[pcn % 65536]]\n            registers[15] = R1[registers[15]] # R\n            registers[25] += 7 # T-states\n            registers[24] = (pcn + 1) % 65536 # PC",
